@@ -1,6 +1,7 @@
 package corpus
 
 import (
+	"reflect"
 	"sort"
 	"strings"
 
@@ -113,6 +114,33 @@ func Rich(minFields int) []string {
 	for _, n := range Standard() {
 		if ByName(n).Descriptor().Fields().Len() >= minFields {
 			out = append(out, n)
+		}
+	}
+	return out
+}
+
+// LazyCapable returns the Standard() types whose generated Go struct carries lazy-decoding state
+// (opaque API with at least one [lazy = true] message field) in this build.
+func LazyCapable() []string {
+	var out []string
+	for _, n := range Standard() {
+		rt := reflect.TypeOf(ByName(n).New().Interface())
+		if rt.Kind() == reflect.Ptr && rt.Elem().Kind() == reflect.Struct {
+			if _, ok := rt.Elem().FieldByName("XXX_lazyUnmarshalInfo"); ok {
+				out = append(out, n)
+			}
+		}
+	}
+	return out
+}
+
+// LazyFields returns the numbers of the lazy message fields of md.
+func LazyFields(md protoreflect.MessageDescriptor) []protoreflect.FieldNumber {
+	var out []protoreflect.FieldNumber
+	fs := md.Fields()
+	for i := 0; i < fs.Len(); i++ {
+		if x, ok := fs.Get(i).(interface{ IsLazy() bool }); ok && x.IsLazy() && fs.Get(i).Message() != nil && !fs.Get(i).IsList() && !fs.Get(i).IsMap() {
+			out = append(out, fs.Get(i).Number())
 		}
 	}
 	return out
